@@ -36,53 +36,84 @@ Theorem C15_instance_isolation :
 Proof. exact instance_isolation. Qed.
 
 Theorem C15_calls_only_own_instance :
-  forall beh s snap inst k it, In it (snd (run_chain beh s snap inst k)) ->
+  forall beh disp s snap inst k it, In it (snd (run_chain beh disp s snap inst k)) ->
     match it with DCall i k' _ => i = inst /\ k' = k | DProto i k' => i = inst /\ k' = k | _ => True end.
 Proof. exact dispatch_only_own_instance. Qed.
 
-(** for EVERY handler behaviour (results and re-entrant (un)registrations): one dispatch invokes
+(** for EVERY handler behaviour (results, re-entrant (un)registrations, and dispatches the handler starts itself --
+    [disp] is whatever such a nested dispatch does): one dispatch invokes
     the chain as it was when the dispatch started, newest first, each entry at most once, as a
     prefix — so a handler that unregisters itself or others never makes a still-registered one be
     skipped, and one that registers never runs twice *)
 Theorem C15_dispatch_runs_snapshot_prefix :
-  forall beh s snap inst k, exists suf, snap = calls (snd (run_chain beh s snap inst k)) ++ suf.
+  forall beh disp s snap inst k, exists suf, snap = calls (snd (run_chain beh disp s snap inst k)) ++ suf.
 Proof. exact dispatch_calls_prefix. Qed.
 
 (** initialize and finish always run the whole chain, then the protocol's method *)
 Theorem C15_init_finish_whole_chain :
-  forall beh s snap inst k, interruptible k = false ->
-    calls (snd (run_chain beh s snap inst k)) = snap /\ proto_called (snd (run_chain beh s snap inst k)) = true.
+  forall beh disp s snap inst k, interruptible k = false ->
+    calls (snd (run_chain beh disp s snap inst k)) = snap /\ proto_called (snd (run_chain beh disp s snap inst k)) = true.
 Proof. exact dispatch_whole_chain_when_not_interruptible. Qed.
 
 (** timer / packet / telemetry: the protocol's method runs iff the whole chain ran; if it did
     not, some handler was invoked and the chain stopped after it (it returned INTERRUPT) *)
 Theorem C15_interrupt :
-  forall beh s snap inst k,
-    (proto_called (snd (run_chain beh s snap inst k)) = true -> calls (snd (run_chain beh s snap inst k)) = snap) /\
-    (proto_called (snd (run_chain beh s snap inst k)) = false ->
-       interruptible k = true /\ calls (snd (run_chain beh s snap inst k)) <> []).
+  forall beh disp s snap inst k,
+    (proto_called (snd (run_chain beh disp s snap inst k)) = true -> calls (snd (run_chain beh disp s snap inst k)) = snap) /\
+    (proto_called (snd (run_chain beh disp s snap inst k)) = false ->
+       interruptible k = true /\ calls (snd (run_chain beh disp s snap inst k)) <> []).
 Proof. exact dispatch_interrupt. Qed.
 
 (** CONTINUE and None never stop the chain *)
 Theorem C15_continue_and_none_do_not_stop :
-  forall beh s snap inst k, (forall h n, fst (beh h n) <> RInterrupt) ->
-    calls (snd (run_chain beh s snap inst k)) = snap /\ proto_called (snd (run_chain beh s snap inst k)) = true.
+  forall beh disp s snap inst k, (forall h n, fst (beh h n) <> RInterrupt) ->
+    calls (snd (run_chain beh disp s snap inst k)) = snap /\ proto_called (snd (run_chain beh disp s snap inst k)) = true.
 Proof. exact dispatch_no_interrupt. Qed.
 
 Theorem C15_unwrapped_instance :
-  forall beh s inst k, get_w s inst = None -> d_dispatch beh s inst k = (s, [DProto inst k]).
+  forall beh disp s inst k, get_w s inst = None -> d_dispatch beh disp s inst k = (s, [DProto inst k]).
 Proof. exact dispatch_unwrapped. Qed.
+
+(** the dispatcher with nested dispatches is [run_chain] with itself as [disp]; so all of the above holds for
+    it, and for every dispatch started from inside a handler, at every depth *)
+Theorem C15_dispatcher_unfold :
+  forall beh f s inst k,
+    dispatchF beh (S f) s inst k =
+    match get_w s inst with
+    | Some w => run_chain beh (dispatchF beh f) s (chain w k) inst k
+    | None => (s, [DProto inst k])
+    end.
+Proof. exact dispatchF_unfold. Qed.
+Theorem C15_nested_dispatch_is_a_dispatch :
+  forall beh f s inst k0 i k sub,
+    In (DNest i k sub) (snd (dispatchF beh (S f) s inst k0)) -> exists s', sub = snd (dispatchF beh f s' i k).
+Proof. exact nested_is_dispatch. Qed.
+Theorem C15_nested_dispatch_does_not_disturb_the_outer_chain :
+  forall beh f s inst k w,
+    get_w s inst = Some w -> exists suf, chain w k = calls (snd (dispatchF beh (S f) s inst k)) ++ suf.
+Proof. exact dispatchF_calls_prefix. Qed.
 
 (** Non-vacuity: handler 1 unregisters itself while running; handler 0 (older) is not skipped. *)
 Example C15_example :
   let beh := fun h n => if Nat.eqb h 1 then (RContinue, [ReUnreg 0 KTimer 1]) else (RContinue, []) in
-  snd (d_run beh (d_init 1 3) [DCreate 0; DRegister 0 KTimer 0; DRegister 0 KTimer 1; DRegister 0 KTimer 2;
+  snd (d_run beh 8 (d_init 1 3) [DCreate 0; DRegister 0 KTimer 0; DRegister 0 KTimer 1; DRegister 0 KTimer 2;
                               DDispatch 0 KTimer; DDispatch 0 KTimer])
   = [[]; []; []; []; [DCall 0 KTimer 2; DCall 0 KTimer 1; DCall 0 KTimer 0; DProto 0 KTimer];
      [DCall 0 KTimer 2; DCall 0 KTimer 0; DProto 0 KTimer]].
 Proof. vm_compute. reflexivity. Qed.
 
+(** Non-vacuity (nested): handler 1, while running for a timer, delivers a packet callback to the same instance
+    and unregisters handler 0 from the timer chain; the outer dispatch still runs handler 0. *)
+Example C15_example_nested :
+  let beh := fun h n => if Nat.eqb h 1 then (RContinue, [ReDisp 0 KPacket; ReUnreg 0 KTimer 0]) else (RContinue, []) in
+  snd (d_run beh 8 (d_init 1 3) [DCreate 0; DRegister 0 KTimer 0; DRegister 0 KTimer 1; DRegister 0 KPacket 2; DDispatch 0 KTimer])
+  = [[]; []; []; []; [DCall 0 KTimer 1; DNest 0 KPacket [DCall 0 KPacket 2; DProto 0 KPacket]; DCall 0 KTimer 0; DProto 0 KTimer]].
+Proof. vm_compute. reflexivity. Qed.
+
 Print Assumptions C15_register.
+Print Assumptions C15_dispatcher_unfold.
+Print Assumptions C15_nested_dispatch_is_a_dispatch.
+Print Assumptions C15_nested_dispatch_does_not_disturb_the_outer_chain.
 Print Assumptions C15_unregister.
 Print Assumptions C15_create_idempotent.
 Print Assumptions C15_create_on_wrapped_is_noop.
